@@ -310,6 +310,13 @@ where
 
     // Computes a merkle proof the leaf at the specified index
     fn proof(&self, leaf: usize) -> Result<FullMerkleProof<H>> {
+        #[cfg(zerokit_verif)]
+        if let Some(sc) = crate::verif_trace::enter_proof() {
+            let sc = sc.call::<Self>(self.verif_id(), "full", "proof", format!("\"i\":{}", leaf));
+            let r = self.proof(leaf);
+            sc.finish_proof(self, r.as_ref().ok());
+            return r;
+        }
         if leaf >= self.capacity() {
             return Err(Report::msg("index exceeds set size"));
         }
